@@ -10,6 +10,7 @@ pub mod c03;
 pub mod c05;
 pub mod c06;
 pub mod c07;
+pub mod c08;
 pub mod c10;
 pub mod c11;
 pub mod c12;
@@ -318,6 +319,7 @@ pub fn lean_checks() -> Vec<CheckDef> {
         CheckDef { name: "c05", run: c05::run, replay: c05::replay },
         CheckDef { name: "c06", run: c06::run, replay: c06::replay },
         CheckDef { name: "c07", run: c07::run, replay: c07::replay },
+        CheckDef { name: "c08", run: c08::run, replay: c08::replay },
         CheckDef { name: "c10", run: c10::run, replay: c10::replay },
         CheckDef { name: "c11", run: c11::run, replay: c11::replay },
         CheckDef { name: "c12", run: c12::run, replay: c12::replay },
